@@ -75,17 +75,32 @@ let fields_of_stmt (st : stmt) : string list =
 let rec int_of_z = function Z0 -> 0 | Zpos p -> int_of_pos p | Zneg p -> - (int_of_pos p)
 let hex_list (l : n list list) : string =
   if l = [] then "-" else String.concat ";" (List.map (fun b -> if b = [] then "-" else hex_of_bytes b) l)
+(* the pattern tree of the reference reading in the notation of harness/c11_pattern.go (pn.shape / patShape) *)
+let rec pat_shape (p : pat) : string =
+  let kids l = String.concat ";" (List.map pat_shape l) in
+  match p with
+  | PSym s -> "v" ^ (if s = [] then "-" else hex_of_bytes s)
+  | PSeq l -> "S(" ^ kids l ^ ")"
+  | PAlt l -> "A(" ^ kids l ^ ")"
+  | PGroup q -> "G(" ^ pat_shape q ^ ")"
+  | PPermute l -> "P(" ^ kids l ^ ")"
+  | PExcl q -> "X(" ^ pat_shape q ^ ")"
+  | PRep (q, lo, hi, g) ->
+      Printf.sprintf "R(%s;%d;%s;%s)" (pat_shape q) (int_of_n lo)
+        (match hi with Some h -> string_of_int (int_of_n h) | None -> "inf") (if g then "g" else "r")
 let fields_of_mr (sp : mrspec) : string list =
   [ "MK=2"; "MP=" ^ hex_list sp.mr_part; "MO=" ^ hex_list sp.mr_order; "MR=" ^ b01 sp.mr_all;
     Printf.sprintf "MS=%d,%s" (int_of_n sp.mr_skip) (if sp.mr_skip_sym = [] then "-" else hex_of_bytes sp.mr_skip_sym);
     "MW=" ^ string_of_int (int_of_z sp.mr_within); "MM=" ^ hex_list sp.mr_measures; "MD=" ^ hex_list sp.mr_defines;
     "MU=" ^ (if sp.mr_subsets = [] then "-" else String.concat ";" (List.map (fun (nm, syms) ->
         hex_of_bytes nm ^ ":" ^ String.concat "+" (List.map hex_of_bytes syms)) sp.mr_subsets));
-    "MT=" ^ (match sp.mr_pattern with Some l -> hex_list l | None -> "?") ]
+    "MT=" ^ (match sp.mr_pattern with Some l -> hex_list l | None -> "?");
+    "MQ=" ^ (match sp.mr_tree with Some p -> pat_shape p | None -> "?") ]
 let mr_clause_of (d : string) : string =
   if String.length d > 8 then (match d.[7] with
       | 'K' -> "execution_mode" | 'P' -> "partition_by" | 'O' -> "order_by" | 'R' -> "rows_per_match" | 'S' -> "after_match_skip"
-      | 'W' -> "within" | 'M' -> "measures" | 'D' -> "define" | 'U' -> "subset" | 'T' -> "pattern" | _ -> "structure") else "structure"
+      | 'W' -> "within" | 'M' -> "measures" | 'D' -> "define" | 'U' -> "subset" | 'T' -> "pattern" | 'Q' -> "pattern_tree"
+      | _ -> "structure") else "structure"
 (* label of a recorded finding (known_findings.d/C11.jsonl): the WITHIN count is a decimal that is not a binary
    fraction and the configured bound is exactly one nanosecond below the written one.  Only a label. *)
 let within_label (toks : token list) (fm : string list) (fo : string list) : string =
